@@ -24,6 +24,14 @@ RULE = ("version-2 certificates built from freshly generated P-256 X.509 chains 
         "root element; compared with an independent verifier that re-does every ECDSA check with "
         "the other library and numeric struct offsets. distinct = (depth, key form, corruption "
         "kind, element touched); non-trivial = all (each carries fresh keys)")
+RULE_ADDED = (
+              'Also: 30% of the cases with the clock the certificate code reads moved by '
+              '-1500..+3650 days; shards in time zones EAST-14 / WEST+12 / Asia/Kolkata and validity '
+              'windows ending 3 h ago / starting in 3 h; a third of the shards under python -O; '
+              'every named field of the reported quote compared; re-validation and element '
+              'replacement on the same object; extra / repeated targets; an attacker chain embedding '
+              'its own root; padding-like ends of the QE auth data ')
+RULE = RULE + " " + RULE_ADDED.strip()
 ASSUMPTIONS = [
     "oracle: pv/oracle/certv2.py; X.509 parsing itself is shared (cryptography), signature "
     "checks are crosswise (ecdsa vs OpenSSL)",
